@@ -192,6 +192,31 @@ func genPolicy(c *Ctx) {
 			}
 		}
 	}
+	// like over strings in which the literal parts of the pattern overlap or repeat: every pattern over
+	// {a, b, *} of length <= 4 against every string over {a, b} of length <= 5, directly, under not, and as any/all
+	{
+		var pats, strs []string
+		allStrings("ab*", 4, func(s string) { pats = append(pats, s) })
+		allStrings("ab", 5, func(s string) { strs = append(strs, s) })
+		for pi, p := range pats {
+			for si, sv := range strs {
+				if !c.Thorough() && (pi+si)%3 != 0 {
+					continue
+				}
+				d := J(`{"s":"` + sv + `","l":["` + sv + `","b"]}`)
+				st := pstmt{kind: "like", sel: ".s", pat: p}
+				switch (pi + si) % 4 {
+				case 1:
+					st = pstmt{kind: "not", subs: []pstmt{st}}
+				case 2:
+					st = pstmt{kind: "any", sel: ".l", subs: []pstmt{{kind: "like", sel: ".", pat: p}}}
+				case 3:
+					st = pstmt{kind: "all", sel: ".l", subs: []pstmt{{kind: "like", sel: ".", pat: p}}}
+				}
+				run1("pol/like-overlap", []pstmt{st}, d)
+			}
+		}
+	}
 	// 2. random nested statements
 	var gen func(depth int) pstmt
 	leaf := func() pstmt {
